@@ -89,8 +89,11 @@ def keep(prop, x, name, results):
     os.makedirs(dst, exist_ok=True)
     shutil.copy(os.path.join(wt, "%s.diff" % x), os.path.join(dst, "patch.diff"))
     shutil.copy(os.path.join(wt, "demo_%s.py" % x), os.path.join(dst, "demo.py"))
-    notes = open(os.path.join(wt, "%s.md" % x)).read() if os.path.exists(os.path.join(wt, "%s.md" % x)) else ""
-    meta = {"property": prop, "round": 8 if "mut9" in BASE else 7 if "mut8" in BASE else 6 if "mut6" in BASE else 5 if "mut5" in BASE else 4 if "mut4" in BASE else (3 if "mut3" in BASE else (2 if "mut2" in BASE else 1)),
+    notes = ""
+    for ext in ("md", "txt"):
+        if os.path.exists(os.path.join(wt, "%s.%s" % (x, ext))):
+            notes = open(os.path.join(wt, "%s.%s" % (x, ext))).read()
+    meta = {"property": prop, "round": int(os.environ["MUT_ROUND"]) if os.environ.get("MUT_ROUND") else 8 if "mut9" in BASE else 7 if "mut8" in BASE else 6 if "mut6" in BASE else 5 if "mut5" in BASE else 4 if "mut4" in BASE else (3 if "mut3" in BASE else (2 if "mut2" in BASE else 1)),
             "origin": "independent sub-agent given only the property text and a scratch worktree",
             "needs_to_manifest": notes, "confirmed": results.get("confirm"), "checks_run": results.get("detect")}
     with open(os.path.join(dst, "meta.json"), "w") as fp:
